@@ -3,12 +3,14 @@
    with all their writers, and the predicates of the property.  Definitions only.
 
    Code modelled: objects/application.go (reserveInternal, canAllocationReserve, UnReserve, unReserveInternal,
-   removeAsksInternal, cancelReservations, the wait-timeout branch of tryReservedAllocate), objects/node.go
-   (Reserve, unReserve), objects/queue.go (Reserve, UnReserve), partition.go (reserve, unReserve, allocate
-   for Unreserved / AllocatedReserved / CancelledReservations, removeNode, removeApplication, removeAllocation),
-   objects/preemption.go (reservation cancellation).
+   removeAsksInternal, cancelReservations, the wait-timeout branch of tryReservedAllocate, cleanupAsks,
+   unReserveAllocatedAsk), objects/node.go (Reserve, unReserve, preAllocateCheck), objects/queue.go (Reserve,
+   UnReserve), partition.go (reserve, unReserve, allocate for Unreserved / AllocatedReserved /
+   CancelledReservations, removeNode, removeApplication, removeAllocation), objects/preemption.go
+   (reservation cancellation).
 
-   The abstract state (type [rview]) is also what the oracle extracts from an observed state. *)
+   The abstract state (type [rview]) is also what the oracle extracts from an observed state: both the
+   application maps and the node maps are lists of the same triples (application, allocation key, node). *)
 From Coq Require Import List ZArith NArith Bool.
 From YK Require Import Core.Obs.
 Import ListNotations.
@@ -16,50 +18,42 @@ Open Scope N_scope.
 
 (* an ask of an application: Application.requests *)
 Record rask := mkRA { ra_app : N; ra_key : N; ra_allocated : bool; ra_req : N (* required node, 0 = none *) }.
+(* one reservation as one of the maps records it *)
+Record rres := mkR { r_app : N; r_key : N; r_node : N }.
 
 Record rview := mkRV {
   rv_asks : list rask;
-  rv_nodes : list N;                  (* registered nodes *)
-  rv_apps : list N;                   (* live applications *)
-  rv_app : list (N * (N * N));        (* application maps: (app, (key, node)) *)
-  rv_node : list (N * (N * N));       (* node maps: (node, (key, app)) *)
-  rv_queue : list (N * N);            (* reservedApps of the application's leaf queue: (app, count) *)
-  rv_part : Z }.                      (* partition counter *)
+  rv_nodes : list N;            (* registered nodes *)
+  rv_apps : list N;             (* live applications *)
+  rv_app : list rres;           (* union of the Application.reservations maps *)
+  rv_node : list rres;          (* union of the Node.reservations maps *)
+  rv_queue : list (N * N);      (* reservedApps of the application's leaf queue: (app, count) *)
+  rv_part : Z }.                (* partition counter *)
 
 Definition rv_init : rview := mkRV [] [] [] [] [] [] 0%Z.
 
-Definition eq3 (a b : N * (N * N)) : bool :=
-  (fst a =? fst b) && (fst (snd a) =? fst (snd b)) && (snd (snd a) =? snd (snd b)).
-Definition mem3 (x : N * (N * N)) (l : list (N * (N * N))) : bool := existsb (eq3 x) l.
+Definition rres_eqb (x y : rres) : bool := (r_app x =? r_app y) && (r_key x =? r_key y) && (r_node x =? r_node y).
+Definition memR (x : rres) (l : list rres) : bool := existsb (rres_eqb x) l.
 
 (* ---- lookups ---- *)
-Definition find_ask (v : rview) (a k : N) : option rask :=
-  find (fun x => (ra_app x =? a) && (ra_key x =? k)) (rv_asks v).
+Definition is_ask (a k : N) (x : rask) : bool := (ra_app x =? a) && (ra_key x =? k).
+Definition find_ask (v : rview) (a k : N) : option rask := find (is_ask a k) (rv_asks v).
+Definition is_res (a k : N) (x : rres) : bool := (r_app x =? a) && (r_key x =? k).
 (* Application.reservations[key] *)
-Definition app_res (v : rview) (a k : N) : option N :=
-  match find (fun x => (fst x =? a) && (fst (snd x) =? k)) (rv_app v) with Some x => Some (snd (snd x)) | None => None end.
-(* Node.reservations (all entries of the node) *)
-Definition node_entries (v : rview) (n : N) : list (N * N) :=
-  map snd (filter (fun x => fst x =? n) (rv_node v)).
-(* Node.reservations[key]: keyed by allocation key only *)
-Definition node_has (v : rview) (n k : N) : bool := existsb (fun e => fst e =? k) (node_entries v n).
+Definition app_res (v : rview) (a k : N) : option rres := find (is_res a k) (rv_app v).
+(* Node.reservations of node n *)
+Definition node_entries (v : rview) (n : N) : list rres := filter (fun x => r_node x =? n) (rv_node v).
 Definition ask_req (v : rview) (a k : N) : N := match find_ask v a k with Some x => ra_req x | None => 0 end.
-Definition queue_count (v : rview) (a : N) : N :=
-  match find (fun x => fst x =? a) (rv_queue v) with Some x => snd x | None => 0 end.
+Definition queue_count (q : list (N * N)) (a : N) : N :=
+  match find (fun x => fst x =? a) q with Some x => snd x | None => 0 end.
+Definition card (l : list rres) (a : N) : N := N.of_nat (length (filter (fun x => r_app x =? a) l)).
 
 (* ---- the property's predicates ---- *)
-(* the relation as the application maps state it: (app, key, node) *)
-Definition rel_app (v : rview) : list (N * (N * N)) := rv_app v.
-(* the relation as the node maps state it, in the same shape *)
-Definition rel_node (v : rview) : list (N * (N * N)) :=
-  map (fun x => (snd (snd x), (fst (snd x), fst x))) (rv_node v).
-Definition sub3 (a b : list (N * (N * N))) : bool := forallb (fun x => mem3 x b) a.
-Definition views_app_node (v : rview) : bool := sub3 (rel_app v) (rel_node v) && sub3 (rel_node v) (rel_app v).
-
-Definition card_app (v : rview) (a : N) : N := N.of_nat (length (filter (fun x => fst x =? a) (rv_app v))).
+Definition subR (a b : list rres) : bool := forallb (fun x => memR x b) a.
+Definition views_app_node (v : rview) : bool := subR (rv_app v) (rv_node v) && subR (rv_node v) (rv_app v).
 Definition views_queue (v : rview) : bool :=
-  forallb (fun x => card_app v (fst x) =? queue_count v (fst x)) (rv_app v) &&
-  forallb (fun e => (0 <? snd e) && (snd e =? card_app v (fst e))) (rv_queue v).
+  forallb (fun x => card (rv_app v) (r_app x) =? queue_count (rv_queue v) (r_app x)) (rv_app v) &&
+  forallb (fun e => (0 <? snd e) && (snd e =? card (rv_app v) (fst e))) (rv_queue v).
 Definition views_counter (v : rview) : bool :=
   match rv_app v with [] => true | _ => (1 <=? rv_part v)%Z end.
 Definition views_agree (v : rview) : bool := views_app_node v && views_queue v && views_counter v.
@@ -67,63 +61,69 @@ Definition views_agree (v : rview) : bool := views_app_node v && views_queue v &
 Definition counter_ge_card (v : rview) : bool := (Z.of_nat (length (rv_app v)) <=? rv_part v)%Z.
 
 (* an ask holds at most one reservation (in either view) *)
-Fixpoint nodup3 (key : N * (N * N) -> N * N) (l : list (N * (N * N))) : bool :=
+Fixpoint nodup_ask (l : list rres) : bool :=
   match l with
   | [] => true
-  | x :: t => negb (existsb (fun y => (fst (key x) =? fst (key y)) && (snd (key x) =? snd (key y))) t) && nodup3 key t
+  | x :: t => negb (existsb (is_res (r_app x) (r_key x)) t) && nodup_ask t
   end.
-Definition one_per_ask (v : rview) : bool :=
-  nodup3 (fun x => (fst x, fst (snd x))) (rel_app v) && nodup3 (fun x => (fst x, fst (snd x))) (rel_node v).
+Definition one_per_ask (v : rview) : bool := nodup_ask (rv_app v) && nodup_ask (rv_node v).
 
 (* only while outstanding: the ask is registered and not allocated *)
 Definition outstanding (v : rview) (a k : N) : bool :=
   match find_ask v a k with Some x => negb (ra_allocated x) | None => false end.
 Definition only_outstanding (v : rview) : bool :=
-  forallb (fun x => outstanding v (fst x) (fst (snd x))) (rel_app v) &&
-  forallb (fun x => outstanding v (fst x) (fst (snd x))) (rel_node v).
+  forallb (fun x => outstanding v (r_app x) (r_key x)) (rv_app v) &&
+  forallb (fun x => outstanding v (r_app x) (r_key x)) (rv_node v).
 
 (* a node carries at most one reservation unless all of them are for asks that require that node *)
 Definition one_per_node_unless_required (v : rview) : bool :=
-  forallb (fun n =>
-    let es := node_entries v n in
-    match es with
+  forallb (fun x =>
+    match node_entries v (r_node x) with
     | [] | [_] => true
-    | _ => forallb (fun e => ask_req v (snd e) (fst e) =? n) es
-    end) (map fst (rv_node v)).
+    | es => forallb (fun e => ask_req v (r_app e) (r_key e) =? r_node x) es
+    end) (rv_node v).
 
 (* cleanup: every reservation refers to a live application and a registered node *)
-Definition cleanup (v : rview) : bool :=
-  forallb (fun x => memN (fst x) (rv_apps v) && memN (snd (snd x)) (rv_nodes v)) (rel_app v) &&
-  forallb (fun x => memN (fst x) (rv_apps v) && memN (snd (snd x)) (rv_nodes v)) (rel_node v).
+Definition res_live (v : rview) (x : rres) : bool := memN (r_app x) (rv_apps v) && memN (r_node x) (rv_nodes v).
+Definition cleanup (v : rview) : bool := forallb (res_live v) (rv_app v) && forallb (res_live v) (rv_node v).
 
-(* a node reserved for another ask: some reservation on n, none for (a,k) *)
+(* a node reserved for another ask: some reservation on n, none for (a,k)
+   (Node.preAllocateCheck: IsReserved() && !isReservedForAllocation(key)) *)
 Definition reserved_for_other (v : rview) (n a k : N) : bool :=
   match node_entries v n with
   | [] => false
-  | es => negb (existsb (fun e => (fst e =? k) && (snd e =? a)) es)
+  | es => negb (existsb (is_res a k) es)
   end.
 
 (* ---- writers ---- *)
-Definition del_app (a k : N) (l : list (N * (N * N))) := filter (fun x => negb ((fst x =? a) && (fst (snd x) =? k))) l.
+Definition del_app (a k : N) (l : list rres) := filter (fun x => negb (is_res a k x)) l.
 (* Node.unReserve: delete(sn.reservations, key) *)
-Definition del_node (n k : N) (l : list (N * (N * N))) := filter (fun x => negb ((fst x =? n) && (fst (snd x) =? k))) l.
+Definition del_node (n k : N) (l : list rres) := filter (fun x => negb ((r_node x =? n) && (r_key x =? k))) l.
 
 (* Queue.Reserve / Queue.UnReserve *)
 Definition q_reserve (a : N) (l : list (N * N)) : list (N * N) :=
-  if existsb (fun x => fst x =? a) l then map (fun x => if fst x =? a then (a, snd x + 1) else x) l else l ++ [(a, 1)].
+  if existsb (fun x => fst x =? a) l then map (fun x => if fst x =? a then (fst x, snd x + 1) else x) l else l ++ [(a, 1)].
 Definition q_unreserve (a num : N) (l : list (N * N)) : list (N * N) :=
   match find (fun x => fst x =? a) l with
   | None => l
   | Some x => if snd x <=? num then filter (fun y => negb (fst y =? a)) l
-              else map (fun y => if fst y =? a then (a, snd y - num) else y) l
+              else map (fun y => if fst y =? a then (fst y, snd y - num) else y) l
   end.
 
-(* Node.Reserve guards (fits = totalResource.FitIn(ask), an input) *)
+Definition with_res (v : rview) (ap nd : list rres) : rview :=
+  mkRV (rv_asks v) (rv_nodes v) (rv_apps v) ap nd (rv_queue v) (rv_part v).
+Definition with_queue (v : rview) (q : list (N * N)) : rview :=
+  mkRV (rv_asks v) (rv_nodes v) (rv_apps v) (rv_app v) (rv_node v) q (rv_part v).
+Definition with_part (v : rview) (p : Z) : rview :=
+  mkRV (rv_asks v) (rv_nodes v) (rv_apps v) (rv_app v) (rv_node v) (rv_queue v) p.
+Definition with_asks (v : rview) (l : list rask) : rview :=
+  mkRV l (rv_nodes v) (rv_apps v) (rv_app v) (rv_node v) (rv_queue v) (rv_part v).
+
+(* Node.Reserve guards ([fits] = totalResource.FitIn(ask), an input) *)
 Definition node_reserve_ok (v : rview) (n a k : N) (fits : bool) : bool :=
   let es := node_entries v n in
-  let req := negb (ask_req v a k =? 0) in
-  (if negb req then match es with [] => true | _ => false end
-   else forallb (fun e => negb (ask_req v (snd e) (fst e) =? 0)) es) && fits.
+  (if ask_req v a k =? 0 then match es with [] => true | _ => false end
+   else forallb (fun e => negb (ask_req v (r_app e) (r_key e) =? 0)) es) && fits.
 
 (* Application.reserveInternal (with canAllocationReserve and Node.Reserve) *)
 Definition app_reserve (v : rview) (n a k : N) (fits : bool) : option rview :=
@@ -135,68 +135,70 @@ Definition app_reserve (v : rview) (n a k : N) (fits : bool) : option rview :=
            | Some _ => None                       (* ErrorDuplicateReserve *)
            | None =>
                if node_reserve_ok v n a k fits
-               then Some (mkRV (rv_asks v) (rv_nodes v) (rv_apps v) (rv_app v ++ [(a, (k, n))])
-                               (del_node n k (rv_node v) ++ [(n, (k, a))]) (rv_queue v) (rv_part v))
+               then Some (with_res v (rv_app v ++ [mkR a k n]) (del_node n k (rv_node v) ++ [mkR a k n]))
                else None
            end
   end.
 
-(* Application.unReserveInternal for the reservation (a,k) -> n stored on the application:
-   node.unReserve(alloc) then delete from the application map; returns the number removed from the app *)
-Definition app_unreserve (v : rview) (a k : N) : rview * N :=
+(* Application.unReserveInternal for the reservation the application stores under the key:
+   node.unReserve(alloc) on the node the reservation names, then delete from the application map;
+   the result is the number removed from the application (0 or 1) *)
+Definition app_unreserve (v : rview) (a k : N) : rview :=
   match app_res v a k with
-  | None => (v, 0)
-  | Some n =>
-      (mkRV (rv_asks v) (rv_nodes v) (rv_apps v) (del_app a k (rv_app v)) (del_node n k (rv_node v)) (rv_queue v) (rv_part v), 1)
+  | None => v
+  | Some x => with_res v (del_app a k (rv_app v)) (del_node (r_node x) k (rv_node v))
   end.
-
-Definition with_queue (v : rview) (q : list (N * N)) : rview :=
-  mkRV (rv_asks v) (rv_nodes v) (rv_apps v) (rv_app v) (rv_node v) q (rv_part v).
-Definition with_part (v : rview) (p : Z) : rview :=
-  mkRV (rv_asks v) (rv_nodes v) (rv_apps v) (rv_app v) (rv_node v) (rv_queue v) p.
-Definition with_asks (v : rview) (l : list rask) : rview :=
-  mkRV l (rv_nodes v) (rv_apps v) (rv_app v) (rv_node v) (rv_queue v) (rv_part v).
+Definition unreserve_num (v : rview) (a k : N) : N := match app_res v a k with None => 0 | Some _ => 1 end.
 
 (* unReserveInternal + queue.UnReserve, the partition counter untouched: removeAsksInternal(key),
-   the wait-timeout branch of tryReservedAllocate, preemption's cancellation, cancelReservations per entry *)
-Definition cancel_one (v : rview) (a k : N) : rview * N :=
-  let '(v1, num) := app_unreserve v a k in
-  (with_queue v1 (q_unreserve a num (rv_queue v1)), num).
+   the wait-timeout branch of tryReservedAllocate, preemption's cancellation, cancelReservations per entry,
+   unReserveAllocatedAsk *)
+Definition cancel_one (v : rview) (a k : N) : rview :=
+  let v1 := app_unreserve v a k in
+  with_queue v1 (q_unreserve a (unreserve_num v a k) (rv_queue v1)).
 
 (* PartitionContext.unReserve *)
 Definition part_unreserve (v : rview) (a k : N) : rview :=
-  let '(v1, num) := cancel_one v a k in with_part v1 (rv_part v1 - Z.of_N num)%Z.
+  with_part (cancel_one v a k) (rv_part v - Z.of_N (unreserve_num v a k))%Z.
+
+Definition reserve_done (v2 : rview) (a : N) : rview :=
+  with_part (with_queue v2 (q_reserve a (rv_queue v2))) (rv_part v2 + 1)%Z.
 
 (* PartitionContext.reserve *)
 Definition part_reserve (v : rview) (a k n : N) (fits : bool) : rview :=
   match app_res v a k with
-  | Some n0 =>
-      if n0 =? n then v
+  | Some x =>
+      if r_node x =? n then v
       else
         let v1 := part_unreserve v a k in
         match app_reserve v1 n a k fits with
         | None => v1
-        | Some v2 => with_part (with_queue v2 (q_reserve a (rv_queue v2))) (rv_part v2 + 1)%Z
+        | Some v2 => reserve_done v2 a
         end
   | None =>
       match app_reserve v n a k fits with
       | None => v
-      | Some v2 => with_part (with_queue v2 (q_reserve a (rv_queue v2))) (rv_part v2 + 1)%Z
+      | Some v2 => reserve_done v2 a
       end
   end.
 
 Definition set_allocated (a k : N) (b : bool) (l : list rask) : list rask :=
-  map (fun x => if (ra_app x =? a) && (ra_key x =? k) then mkRA (ra_app x) (ra_key x) b (ra_req x) else x) l.
+  map (fun x => if is_ask a k x then mkRA (ra_app x) (ra_key x) b (ra_req x) else x) l.
 
-Definition app_keys (v : rview) (a : N) : list N := map (fun x => fst (snd x)) (filter (fun x => fst x =? a) (rv_app v)).
-
-(* removeAsksInternal(""): every reservation of the application, then one Queue.UnReserve with the total *)
+(* the reservations of one application removed in a loop of unReserveInternal (removeAsksInternal(""),
+   cleanupAsks), followed by one Queue.UnReserve with the total *)
+Definition app_keys (v : rview) (a : N) : list N := map r_key (filter (fun x => r_app x =? a) (rv_app v)).
+Definition unreserve_all (v : rview) (a : N) : rview :=
+  let v1 := fold_left (fun w k => app_unreserve w a k) (app_keys v a) v in
+  with_queue v1 (q_unreserve a (card (rv_app v) a) (rv_queue v1)).
+Definition drop_asks (v : rview) (a : N) : rview :=
+  with_asks v (filter (fun x => negb (ra_app x =? a)) (rv_asks v)).
+(* removeAsksInternal(""): nothing at all happens when the application has no requests *)
 Definition remove_all_asks (v : rview) (a : N) : rview :=
-  if negb (existsb (fun x => ra_app x =? a) (rv_asks v)) then v   (* shortcut: no requests, nothing is touched *)
-  else
-    let '(v1, total) := fold_left (fun acc k => let '(w, t) := acc in let '(w1, num) := app_unreserve w a k in (w1, t + num))
-                                  (app_keys v a) (v, 0) in
-    with_asks (with_queue v1 (q_unreserve a total (rv_queue v1))) (filter (fun x => negb (ra_app x =? a)) (rv_asks v1)).
+  if negb (existsb (fun x => ra_app x =? a) (rv_asks v)) then v else drop_asks (unreserve_all v a) a.
+
+Definition drop_app (v : rview) (a : N) : rview :=
+  mkRV (rv_asks v) (rv_nodes v) (filter (fun x => negb (x =? a)) (rv_apps v)) (rv_app v) (rv_node v) (rv_queue v) (rv_part v).
 
 Inductive rop :=
 | RAddNode (n : N)
@@ -208,16 +210,24 @@ Inductive rop :=
                                              a reservation the ask holds is removed through PartitionContext.unReserve
                                              (AllocatedReserved) *)
 | RAllocateKeep (a k : N)                 (* the ask becomes allocated outside of tryNode: placeholder swap
-                                             (tryPlaceholderAllocate) or an external binding sent by the shim;
-                                             reservations are not touched *)
+                                             (tryPlaceholderAllocate) or a binding sent by the shim (AllocateAsk);
+                                             unReserveAllocatedAsk: counter not decremented *)
 | RDeallocate (a k : N)                   (* DeallocateAsk: in-flight swap reversed *)
 | RRemoveAsk (a k : N)                    (* removeAsksInternal(key): counter not decremented *)
 | RRemoveAllAsks (a : N)                  (* removeAsksInternal(""): counter not decremented *)
-| RRemoveApp (a : N)                      (* removeApplication / terminated application *)
+| RRemoveApp (a : N)                      (* partition.removeApplication *)
+| RTerminate (a : N)                      (* enter_Completed / enter_Failed: cleanupAsks, then moveTerminatedApp *)
 | RCancel (a k : N)                       (* wait timeout / preemption: unReserveInternal + queue, counter not decremented *)
 | RCancelRequired (n : N) (counted : bool) (* cancelReservations for a required-node ask on n; [counted] = the
                                              result reached allocate(), which decrements the counter *)
 | RRemoveNode (n : N).                    (* removeNode: PartitionContext.unReserve for every reservation of the node *)
+
+(* cancelReservations: every reservation on the node whose ask has no required node *)
+Definition cancel_required (v : rview) (n : N) : rview * N :=
+  fold_left (fun acc e => if ask_req (fst acc) (r_app e) (r_key e) =? 0
+                          then (cancel_one (fst acc) (r_app e) (r_key e), snd acc + unreserve_num (fst acc) (r_app e) (r_key e))
+                          else acc)
+            (node_entries v n) (v, 0).
 
 Definition rstep (v : rview) (o : rop) : option rview :=
   match o with
@@ -230,7 +240,9 @@ Definition rstep (v : rview) (o : rop) : option rview :=
       if negb (memN a (rv_apps v)) || existsb (fun x => ra_key x =? k) (rv_asks v) then None
       else Some (with_asks v (rv_asks v ++ [mkRA a k false req]))
   | RReserve a k n fits =>
-      if memN a (rv_apps v) && memN n (rv_nodes v) then Some (part_reserve v a k n fits) else None
+      (* callers: tryNodes (asks without required node), tryRequiredNode (the required node itself), preemption *)
+      if memN a (rv_apps v) && memN n (rv_nodes v) && ((ask_req v a k =? 0) || (ask_req v a k =? n))
+      then Some (part_reserve v a k n fits) else None
   | RUnreserve a k => if memN a (rv_apps v) then Some (part_unreserve v a k) else None
   | RAllocate a k n =>
       match find_ask v a k with
@@ -238,14 +250,13 @@ Definition rstep (v : rview) (o : rop) : option rview :=
       | Some x =>
           if ra_allocated x || negb (memN n (rv_nodes v)) then None
           else if reserved_for_other v n a k then None       (* Node.preAllocateCheck *)
-          else
-            let v1 := with_asks v (set_allocated a k true (rv_asks v)) in
-            Some (part_unreserve v1 a k)
+          else Some (part_unreserve (with_asks v (set_allocated a k true (rv_asks v))) a k)
       end
   | RAllocateKeep a k =>
       match find_ask v a k with
       | None => None
-      | Some x => if ra_allocated x then None else Some (with_asks v (set_allocated a k true (rv_asks v)))
+      | Some x => if ra_allocated x then None
+                  else Some (cancel_one (with_asks v (set_allocated a k true (rv_asks v))) a k)
       end
   | RDeallocate a k =>
       match find_ask v a k with
@@ -253,24 +264,18 @@ Definition rstep (v : rview) (o : rop) : option rview :=
       | Some x => if ra_allocated x then Some (with_asks v (set_allocated a k false (rv_asks v))) else None
       end
   | RRemoveAsk a k =>
-      let '(v1, _) := cancel_one v a k in
-      Some (with_asks v1 (filter (fun x => negb ((ra_app x =? a) && (ra_key x =? k))) (rv_asks v1)))
+      let v1 := cancel_one v a k in
+      Some (with_asks v1 (filter (fun x => negb (is_ask a k x)) (rv_asks v1)))
   | RRemoveAllAsks a => Some (remove_all_asks v a)
-  | RRemoveApp a =>
-      let v1 := remove_all_asks v a in
-      Some (mkRV (rv_asks v1) (rv_nodes v1) (filter (fun x => negb (x =? a)) (rv_apps v1)) (rv_app v1) (rv_node v1) (rv_queue v1) (rv_part v1))
-  | RCancel a k => Some (fst (cancel_one v a k))
+  | RRemoveApp a => Some (drop_app (remove_all_asks v a) a)
+  | RTerminate a => Some (drop_app (drop_asks (unreserve_all v a) a) a)
+  | RCancel a k => Some (cancel_one v a k)
   | RCancelRequired n counted =>
-      let '(v1, total) :=
-        fold_left (fun acc e => let '(w, t) := acc in
-                                if ask_req w (snd e) (fst e) =? 0
-                                then let '(w1, num) := cancel_one w (snd e) (fst e) in (w1, t + num)
-                                else (w, t))
-                  (node_entries v n) (v, 0) in
-      Some (if counted then with_part v1 (rv_part v1 - Z.of_N total)%Z else v1)
+      let r := cancel_required v n in
+      Some (if counted then with_part (fst r) (rv_part (fst r) - Z.of_N (snd r))%Z else fst r)
   | RRemoveNode n =>
       let v0 := mkRV (rv_asks v) (filter (fun x => negb (x =? n)) (rv_nodes v)) (rv_apps v) (rv_app v) (rv_node v) (rv_queue v) (rv_part v) in
-      Some (fold_left (fun w e => part_unreserve w (snd e) (fst e)) (node_entries v n) v0)
+      Some (fold_left (fun w e => part_unreserve w (r_app e) (r_key e)) (node_entries v n) v0)
   end.
 
 Fixpoint rrun (v : rview) (ops : list rop) : option rview :=
